@@ -155,15 +155,116 @@ def check_function(ck, ip, u, name, host_big, tag):
                                   nb - 1, 'big' if big else 'little', nb))
         m = re.match(r'bf_inrange_([us])(\d+)$', name)
         if m:
-            return check_inrange(ck, u, name, m.group(1), int(m.group(2)), tag)
+            return check_inrange(ck, u, name, m.group(1), int(m.group(2)), tag, ip)
     except Unsupported as e:
         return ck.broken(rule, key, where, 'outside the bit domain: %s' % e)
     return ck.broken(rule, key, where, 'function name does not match the codec naming scheme')
 
 
-def check_inrange(ck, u, name, kind_, W, tag):
-    """accepted set of bf_inrange_* extracted as an interval"""
+def inrange_bits(ip, name, kind_, W, pw, psigned):
+    """bf_inrange_* of any loop-free shape decided in the bit domain: under an exact case partition of the 2^pw inputs
+    (bitdom case splits) the returned truth value equals 'bits W.. of the argument are all zero' (unsigned) /
+    'bits W-1.. are all equal' (signed).  -> (deviation or None, number of cases)"""
+    arg = BV.sym('value', pw, psigned)
+    work = [{}]
+    runs = leaves = 0
+
+    def split(asm, bit):
+        c, atoms = bit
+        a = min(atoms)
+        for v in (0, 1):
+            form = (c ^ v, frozenset(atoms - {a}))
+            new = {k: bitdom.subst_bit(f, {a: form}) for k, f in asm.items()}
+            new[a] = form
+            work.append(new)
+
+    def conj(bits):
+        """AND of affine bits as one affine bit, or the bit to split on"""
+        if any(b is TOP for b in bits):
+            raise Unsupported('unknown bits in the result')
+        if any(bitdom.is_const(b) and not b[0] for b in bits):
+            return ZERO, None
+        nc = []
+        for b in bits:
+            if not bitdom.is_const(b) and b not in nc:
+                nc.append(b)
+        if any(bitdom.bnot(b) in nc for b in nc):
+            return ZERO, None
+        if not nc:
+            return ONE, None
+        if len(nc) == 1:
+            return nc[0], None
+        return None, nc[0]
+    while work:
+        asm = work.pop()
+        runs += 1
+        if runs > 20000:
+            raise Unsupported('case-split budget exceeded')
+        ip.assume, ip.splitting = asm, True
+        try:
+            ret, stores, loads = ip.run(name, [arg])
+        except bitdom.NeedSplit as sp:
+            split(asm, sp.bit)
+            continue
+        finally:
+            ip.assume, ip.splitting = {}, False
+        if stores or loads:
+            return 'memory effect in a predicate', runs
+        if not isinstance(ret, BV):
+            return 'does not return a truth value', runs
+        # truth value of the result: some bit set
+        f, sp = conj([bitdom.bnot(b) for b in ret.bits])
+        if sp is not None:
+            split(asm, sp)
+            continue
+        t = bitdom.bnot(f)
+        vb = bitdom.subst_bits(arg.bits, asm)
+        if kind_ == 'u':
+            gs = [bitdom.bnot(vb[i]) for i in range(W, pw)]
+        else:
+            gs = [bitdom.bnot(bitdom.bxor(vb[i], vb[W - 1])) for i in range(W, pw)]
+        e, sp = conj(gs)
+        if sp is not None:
+            split(asm, sp)
+            continue
+        leaves += 1
+        if t != e:
+            d = bitdom.bxor(t, e)
+            w = dict(asm)
+            if not bitdom.is_const(d):
+                # choose the free bits so that the two differ
+                a = min(d[1])
+                form = (d[0] ^ 1, frozenset(d[1] - {a}))
+                w = {k: bitdom.subst_bit(f_, {a: form}) for k, f_ in asm.items()}
+                w[a] = form
+            val = {}
+            for a, (c, atoms) in w.items():
+                val[a] = c
+            v = sum(val.get('value.%d' % i, 0) << i for i in range(pw))
+            got = t[0] if bitdom.is_const(t) else (t[0] ^ sum(val.get(x, 0) for x in t[1])) & 1
+            sv = v - (1 << pw) if (psigned and v >> (pw - 1)) else v
+            return ('%s value 0x%x (%d), which is %s the %d-bit %s range' % (
+                'accepts' if got else 'rejects', v, sv, 'outside' if got else 'inside', W,
+                'signed' if kind_ == 's' else 'unsigned')), runs
+    return None, leaves
+
+
+def check_inrange(ck, u, name, kind_, W, tag, ip=None):
+    """accepted set of bf_inrange_*: decided in the bit domain (any loop-free shape), and for the comparison shape
+    also extracted as an interval"""
     rule = 'C15.inrange'
+    if ip is not None:
+        f_ = u.fn(name)
+        pti_ = bitdom.type_info(cast.qual_type(u.params(name)[0]))
+        try:
+            d, n = inrange_bits(ip, name, kind_, W, pti_[0], pti_[1])
+        except Unsupported as e:
+            d, n = None, None
+            bits_broken = str(e)
+        if n is not None:
+            return ck.verdict(d is None, rule, name + tag, cast.where(f_),
+                              d or 'accepts exactly the %d-bit %s range (%d cases partition the %d-bit argument)' % (
+                                  W, 'signed' if kind_ == 's' else 'unsigned', n, pti_[0]))
     f = u.fn(name)
     where = cast.where(f)
     key = name + tag
@@ -302,7 +403,7 @@ def run(ck):
     ck.level = 'proof'
     ck.rule('C15.codec', 'GF(2)-affine bit-provenance summary of every bf_swap*/bf_ref_*/bf_set_* function '
             'equals its specification (lane map, zero/sign extension, exact octet footprint, returned pointer) for ALL inputs')
-    ck.rule('C15.inrange', 'accepted interval of every bf_inrange_* extracted from its comparisons equals the representable range')
+    ck.rule('C15.inrange', 'every bf_inrange_* accepts exactly the representable range: decided in the bit domain under an exact case partition of the argument (any loop-free shape); comparison shapes outside the domain fall back to interval extraction')
     ck.rule('C15.octetwise', 'every access through the pointer parameter is octet-wide (alignment independent)')
     ck.trusted_base = ['clang 14 front end/JSON AST', 'ufwsa.bitdom transfer functions (exact GF(2)-affine domain)',
                        'model: two\'s complement, CHAR_BIT=8, floats as bit patterns']
